@@ -2,7 +2,7 @@ import QG.Model.IntegratorCache
 /-! GENERATED on every run by harness/gen/determinism.py from the source text of
 src/quantum_gates/_gates/integrator.py, src/quantum_gates/_gates/factories.py, src/quantum_gates/_gates/gates.py, src/quantum_gates/_simulation/simulator.py (and a scan of the package).  Do not edit.
 
-`integrate` (line 52): parameters ('integrand', 'theta', 'a'); coerced with `float(...)` first: ();
+`integrate` (line 52): parameters ('integrand', 'theta', 'a'); coerced with `float(...)` first: ('theta', 'a');
 cache key ('integrand', 'theta', 'a') (read and written 2x under the same tuple); asserts ['integrand in self._INTEGRAL_LOOKUP.keys()', 'a > 0'];
 the two integration routines are called with ('integrand', 'theta', 'a') in this order; `self.` attributes read: {'integrate': ['use_lookup', '_cache', '_analytical_integration', '_numerical_integration', '_INTEGRAL_LOOKUP'], '_analytical_integration': ['_RESULT_LOOKUP', '_INTEGRAL_LOOKUP'], '_numerical_integration': ['pulse_parametrization', '_INTEGRAL_LOOKUP']}.
 `_cache`: instance attribute, fresh dict in __init__.
@@ -15,7 +15,7 @@ open QG.Model.IntegratorCache
 /-- key tuple, coerced parameters and known integrand names of `Integrator.integrate` -/
 def config : Config :=
   { keyFields := [.integrand, .theta, .a]
-    coerced := []
+    coerced := [.theta, .a]
     known := ["sin(theta/a)**2", "sin(theta/(2*a))**4", "sin(theta/a)*sin(theta/(2*a))**2", "sin(theta/(2*a))**2", "cos(theta/a)**2", "sin(theta/a)*cos(theta/a)", "sin(theta/a)", "cos(theta/(2*a))**2"] }
 /-- the parameters handed to `_analytical_integration` / `_numerical_integration` -/
 def computeArgs : List Field := [.integrand, .theta, .a]
